@@ -86,7 +86,7 @@ def handleUnionRows (j : Json) : Except String Verdict := do
            why := s!"n = {n} rows of variant {v}: first refused row {got}, model {modelFirstErr} ({cls})" }
 
 /-- `len_hint`: a `Serialize` impl that announces `n` elements and sends none, handed to `SerdeArrowSchema::from_value`
-(repo fix 4c15f66: utils/value.rs preallocated `n` elements — "capacity overflow" panic for usize::MAX, allocation abort
+(repo fix 9aa1a7f: utils/value.rs preallocated `n` elements — "capacity overflow" panic for usize::MAX, allocation abort
 for 2^40).  A length announcement is not data (the serde value model `SVal` of the models has none), so the specification
 is: the outcome equals the outcome of the honest announcement, recorded in the same case. -/
 def handleLenHint (j : Json) : Except String Verdict := do
